@@ -37,7 +37,7 @@ Theorem spec01_sound :
 Proof. exact Proofs.C01.spec01_sound. Qed.
 Print Assumptions spec01_sound.
 
-(* ---- 2. the faithful model violates the full statement (finding C01-f) ---- *)
+(* ---- 2. the faithful model violates the full statement (finding C01-f; C01-g is its phase-8 form) ---- *)
 Theorem agreement_refuted :
   exists i : input,
     well_formed {| c_in := i; c_obs := map (fun h => (h_id h, OFailed)) (i_honest i) |} = true /\
